@@ -22,6 +22,7 @@ import (
 	"testing"
 	"time"
 
+	"golang.org/x/net/http2/hpack"
 	v2 "mosn.io/mosn/pkg/config/v2"
 	_ "mosn.io/mosn/pkg/filter/stream/transcoder"
 	_ "mosn.io/mosn/pkg/filter/stream/transcoder/httpconv"
@@ -248,6 +249,16 @@ func h2Frame(typ, flags byte, stream uint32, payload []byte) []byte {
 	return b
 }
 
+// h2Block encodes a header list with x/net's HPACK encoder (fresh dynamic table).
+func h2Block(fields [][2]string) []byte {
+	var b bytes.Buffer
+	enc := hpack.NewEncoder(&b)
+	for _, f := range fields {
+		_ = enc.WriteField(hpack.HeaderField{Name: f[0], Value: f[1]})
+	}
+	return b.Bytes()
+}
+
 func genH2Garbage(t *rapid.T) *garbage {
 	g := &garbage{Plaus: true}
 	pre := []byte(mesh.H2ClientPreface)
@@ -264,7 +275,11 @@ func genH2Garbage(t *rapid.T) *garbage {
 	case 2: // hand-made hostile frames behind a correct preface + SETTINGS
 		g.Kind = "hostile-frame"
 		var f []byte
-		switch rapid.IntRange(0, 13).Draw(t, "frame") {
+		switch rapid.IntRange(0, 14).Draw(t, "frame") {
+		case 14: // a well-formed POST that announces a 200 MiB body, sends 30 bytes of it and stays silent
+			f = append(h2Frame(1, 4, 1, h2Block([][2]string{{":method", "POST"}, {":scheme", "http"}, {":authority", "unfit.example"}, {":path", "/"}, {"content-length", "209715200"}})),
+				h2Frame(0, 0, 1, []byte("only-thirty-bytes-of-body-here"))...)
+			g.Kind = "h2-announced-length"
 		case 0: // announced length far beyond SETTINGS_MAX_FRAME_SIZE, 30 bytes present
 			f = h2Frame(0, 0, 1, make([]byte, 30))
 			f[0], f[1], f[2] = 0xff, 0xff, 0xff
@@ -294,6 +309,9 @@ func genH2Garbage(t *rapid.T) *garbage {
 			f = h2Frame(1, 4, 2, []byte{0x82, 0x86, 0x84}) // HEADERS on an even stream id
 		case 13:
 			f = h2Frame(1, 0x0c, 1, []byte{200, 0x82}) // PADDED with pad length beyond the payload
+		}
+		if g.Kind != "h2-announced-length" {
+			g.Kind = "hostile-frame"
 		}
 		g.Bytes = append(append(append([]byte(nil), pre...), settings...), f...)
 	default: // structure-aware mutation of a valid stream (no CONTINUATION frames in the base, frame types untouched:
@@ -409,6 +427,8 @@ func genUpstreamGarbage(proto string) *rapid.Generator[hold[garbage]] {
 				h2Frame(7, 0, 0, []byte{0, 0, 0, 0, 0, 0, 0, 2}),
 				{0xff, 0xff, 0xff, 0, 0, 0, 0, 0, 1, 1, 2, 3},
 				codec.Fill(300, 5, false),
+				// a well-formed answer on the first stream that announces 200 MiB and delivers 30 bytes
+				append(h2Frame(1, 4, 1, h2Block([][2]string{{":status", "200"}, {"content-length", "209715200"}})), h2Frame(0, 0, 1, []byte("thirty bytes of the body only."))...),
 				nil,
 			}).Draw(t, "h2resp")...)
 		default:
@@ -938,12 +958,15 @@ func containmentCase(rt *rapid.T, sc *scenario) {
 	var m1 runtime.MemStats
 	runtime.ReadMemStats(&m1)
 	sent := 0
-	announcedReq, announcedResp := false, false
+	announcedReq, announcedResp, announcedH2 := false, false, false
 	for _, cl := range sc.Clients {
 		for _, g := range cl {
 			sent += len(g.Bytes)
 			if bytes.Contains(g.Bytes, []byte("Content-Length: 209715200")) {
 				announcedReq = true
+			}
+			if g.Kind == "h2-announced-length" {
+				announcedH2 = true
 			}
 		}
 	}
@@ -952,10 +975,15 @@ func containmentCase(rt *rapid.T, sc *scenario) {
 		if bytes.Contains(g.Bytes, []byte("Content-Length: 209715200")) {
 			announcedResp = true
 		}
+		if bytes.Contains(g.Bytes, []byte("thirty bytes of the body only.")) && g.Kind == "http2-response-garbage" {
+			announcedH2 = true
+		}
 	}
 	if delta := m1.TotalAlloc - m0.TotalAlloc; delta > uint64(96<<20+32*sent) {
 		sig := "allocates-far-beyond-received-bytes"
 		switch {
+		case announcedH2 && !announcedReq && !announcedResp:
+			sig = "allocates-announced-length:http2-content-length"
 		case announcedReq:
 			sig = "allocates-announced-length:http1-request-content-length"
 		case announcedResp:
